@@ -965,6 +965,54 @@ theorem edit_amount_counterexample :
       omega
 
 
+/-! ## the WithdrawSurplus proposal -/
+
+/-- one basket of a WithdrawSurplus proposal keeps all invariants and moves no coin out of the books: what leaves the
+module is exactly what leaves the record -/
+theorem withdrawSurplus1_preserves (s s' : St) (t : Acct) (id : Nat) (ht : t ≠ .module)
+    (h : withdrawSurplus1 s t id = some s') (hinv : Inv s) :
+    Inv s' ∧ ∀ d, unaccounted s' d = unaccounted s d := by
+  unfold withdrawSurplus1 at h
+  cases hb : getBasket s.baskets id with
+  | none => simp [hb] at h
+  | some b =>
+    simp only [hb] at h
+    cases hs : s.bank.send .module t b.surplus with
+    | none => simp [hs] at h
+    | some bank' =>
+      simp only [hs, Option.some.injEq] at h
+      subst h
+      obtain ⟨_, hsup, hbal⟩ := send_spec s.bank bank' .module t b.surplus hs
+      refine inv_of_update s _ id b { b with surplus := [] } 0 hb rfl rfl rfl (hinv.wf.fee_ok id b hb) ?_ (by simp) ?_ hinv
+      · intro d
+        show bank'.supplyOf d = s.bank.supplyOf d + _
+        unfold Bank.supplyOf; rw [hsup]; split <;> omega
+      · intro d
+        show bank'.balOf .module d - owedB { b with surplus := [] } d = s.bank.balOf .module d - owedB b d
+        rw [hbal .module d]
+        have hne : ¬ (Acct.module = t) := fun e => ht e.symm
+        simp only [if_true, hne, if_false]
+        unfold owedB
+        simp only [amountOf_nil]
+        omega
+
+/-- **the whole proposal — whatever ids it lists, repeated ids included — keeps supply = recorded amount, keeps the
+module holding reserves + surplus, and pays the target exactly the surplus that was recorded** -/
+theorem withdrawSurplus_preserves (ids : List Nat) (s s' : St) (t : Acct) (ht : t ≠ .module)
+    (h : withdrawSurplus s t ids = some s') (hinv : Inv s) :
+    Inv s' ∧ ∀ d, unaccounted s' d = unaccounted s d := by
+  induction ids generalizing s with
+  | nil => simp only [withdrawSurplus, Option.some.injEq] at h; subst h; exact ⟨hinv, fun _ => rfl⟩
+  | cons id rest ih =>
+    simp only [withdrawSurplus] at h
+    cases h1 : withdrawSurplus1 s t id with
+    | none => simp [h1] at h
+    | some s1 =>
+      simp only [h1] at h
+      obtain ⟨hi1, hu1⟩ := withdrawSurplus1_preserves s s1 t id ht h1 hinv
+      obtain ⟨hi2, hu2⟩ := ih s1 h hi1
+      exact ⟨hi2, fun d => by rw [hu2 d, hu1 d]⟩
+
 /-! ## the EndBlocker's pruning of the limit histories -/
 
 /-- dropping entries that a period sum does not count leaves the sum unchanged -/
